@@ -7,9 +7,10 @@ cd "$(dirname "$0")/.." || exit 2
 V=$(pwd)
 WT=/tmp/wt-seeded.$ID.$P.$$
 git -C /repo worktree add --detach $WT HEAD >/dev/null 2>&1 || { echo "cannot create worktree"; exit 2; }
-trap 'git -C /repo worktree remove --force $WT >/dev/null 2>&1; rm -rf /tmp/seeded_replays' EXIT
+RP=/tmp/seeded_replays.$$; EV=/tmp/seeded_evidence.$$
+trap 'git -C /repo worktree remove --force $WT >/dev/null 2>&1; rm -rf $RP $EV' EXIT
 git -C $WT apply $V/seeded/$ID/patch.diff || { echo "SEEDED $ID: patch does not apply"; exit 2; }
 LOG=/tmp/seeded_$ID.$P.log
-VERIF_REPO=$WT VERIF_EVIDENCE_DIR=/tmp/seeded_evidence VERIF_REPLAYS_DIR=/tmp/seeded_replays ./bin/verif check $P --tier quick "$@" > $LOG 2>&1; RC=$?
+VERIF_REPO=$WT VERIF_EVIDENCE_DIR=$EV VERIF_REPLAYS_DIR=$RP ./bin/verif check $P --tier quick "$@" > $LOG 2>&1; RC=$?
 V=$(grep -a -c "^VIOLATION" $LOG)
 echo "SEEDED $ID on $P: exit=$RC violations=$V $(grep -a -A1 '^VIOLATION' $LOG | grep -v '^VIOLATION' | grep -v '^--' | cut -c1-150 | sort | uniq -c | sort -rn | head -4 | tr '\n' ';')"
